@@ -80,6 +80,16 @@ func c17Run(w *W, c Case) {
 		if foto.GetYear() != ly+544 || foto.GetMonth() != lm || foto.GetDay() != ld {
 			w.Violatef("foto-offset", key, "%s is lunar %d-%d-%d but Buddhist %d-%d-%d (expected year %d)", key, ly, lm, ld, foto.GetYear(), foto.GetMonth(), foto.GetDay(), ly+544)
 		}
+		// the wrapping constructors called directly are the same objects as the ones the Lunar hands out
+		if j%5 == 0 {
+			if a, b := digest1(calendar.NewTaoFromLunar(l)), digest1(tao); a != b {
+				w.Violatef("tao-offset", key+"/fromlunar", "NewTaoFromLunar of the Lunar at %s differs from its GetTao(): %s", key, diffDigests(b, a))
+			}
+			if a, b := digest1(calendar.NewFotoFromLunar(l)), digest1(foto); a != b {
+				w.Violatef("foto-offset", key+"/fromlunar", "NewFotoFromLunar of the Lunar at %s differs from its GetFoto(): %s", key, diffDigests(b, a))
+			}
+			w.Eval(2)
+		}
 		// round trip through the constructors with the numbers reported
 		var t2 *calendar.Tao
 		var f2 *calendar.Foto
